@@ -326,3 +326,29 @@ impl Gc {
     pub fn memory_limit(&self) -> usize { unimplemented!() }
 }
 
+
+// ---- transfer sites: RootedValue::re_root (thread.rs) and <RootedValue as Pushable>::vm_push (api/mod.rs)
+// RootedValue<T> { vm: T, value: Value }: a value rooted in (owned by) the thread `vm`
+pub struct SrcRooted<'a> { pub vm: &'a Thread, pub value: Value }
+impl<'a> SrcRooted<'a> {
+    #[verifier::external_body]
+    pub fn vm(&self) -> (r: &Thread) ensures *r == *self.vm { unimplemented!() }
+    #[verifier::external_body]
+    pub fn get_value(&self) -> (r: &Value) ensures *r == self.value { unimplemented!() }
+}
+impl RootedValue {
+    #[verifier::external_body]
+    pub fn get_value(&self) -> (r: &Value) ensures *r == self.v { unimplemented!() }
+    // RootedValue::new(vm, &value): roots `value` in `vm`
+    #[verifier::external_body]
+    pub fn new(vm: &Thread, value: &Value) -> (r: RootedValue) ensures r.v == *value { unimplemented!() }
+}
+// the value stack of the destination, as a ghost sequence
+#[verifier::external_body] pub struct DestStack { _p: () }
+impl DestStack {
+    pub uninterp spec fn view(&self) -> Seq<Value>;
+    #[verifier::external_body]
+    pub fn push(&mut self, v: Variants) ensures final(self)@ == old(self)@.push(v.v) { unimplemented!() }
+}
+// `context.context()`: the locked context of the ACTIVE (destination) thread (R-lock): its thread, its own collector, its stack
+pub struct DestContext<'a> { pub thread: &'a Thread, pub gc: &'a mut Gc, pub stack: DestStack }
